@@ -14,6 +14,7 @@ mod c07;
 mod c08;
 mod c09;
 mod c10;
+mod c11;
 mod c19;
 mod prog;
 
@@ -117,6 +118,7 @@ fn main() {
         "c08" => c08::run(&ctx),
         "c09" => c09::run(&ctx),
         "c10" => c10::run(&ctx),
+        "c11" => c11::run(&ctx),
         "c19" => c19::run(&ctx),
         "c19dump" => c19::dump(&ctx),
         _ => {
